@@ -129,6 +129,27 @@ class Repo(object):
         self._mods[key] = m
         return m
 
+    def cython_from_text(self, key, text, origin_relpath):
+        """Mechanical extraction of a Cython fragment given as text (e.g. the
+        static methods cut out of a .mako template)."""
+        import tempfile
+        k = 'cytext:' + key
+        if k in self._mods:
+            return self._mods[k]
+        d = tempfile.mkdtemp(prefix='pyvc_cytext_')
+        try:
+            rel = os.path.join(d, key + '.pyx')
+            with open(rel, 'w') as f:
+                f.write(text)
+            sub = Repo(d)
+            m = sub.cython_module(key + '.pyx')
+        finally:
+            import shutil
+            shutil.rmtree(d, ignore_errors=True)
+        m.path = os.path.join(self.root, origin_relpath)
+        self._mods[k] = m
+        return m
+
     def has_module(self, modname):
         return modname is not None and self.path_of(modname) is not None
 
